@@ -156,6 +156,13 @@ class SymX:
                 r = self.resolve_fn(f.id, self.cur_module)
                 if r is not None:
                     return r[1], False, r[0]
+            # a private method of the object under analysis (resolved through the MRO; static methods take no self)
+            if isinstance(f, ast.Attribute) and isinstance(f.value, ast.Name) and f.value.id == "self" and self.cls \
+                    and f.attr.startswith("_") and not f.attr.startswith("__"):
+                c, fn = self.repo.resolve_method(self.cls, f.attr)
+                if fn is not None:
+                    static = "staticmethod" in self.repo.classes[c].decorators.get(f.attr, [])
+                    return fn, not static, self.repo.classes[c].module.name
             return None
         if isinstance(f, ast.Name) and f.id in self.repo.module(self.module).functions:
             return self.repo.module(self.module).functions[f.id], False
@@ -353,6 +360,8 @@ class SymX:
             if is_method:
                 params = params[1:]
             cenv = dict(base)
+            if is_method and "self" in env:
+                cenv["self"] = env["self"]
             cenv.update({p: UNKNOWN for p in params})
             for p, a in zip(params, c.args):
                 cenv[p] = self.ev(a, env)
